@@ -67,14 +67,60 @@ Theorem C18_simplify_batch_scales_flops_partial : forall szs x il jl, NoDup (lke
 Proof. exact batch_removal_scales_flops. Qed.
 Print Assumptions C18_simplify_batch_scales_flops_partial.
 
-(* finding 13 in the model: the flops random-greedy reports for a path (processor with
-   track_flops, simplify_batch, then the contractions) are not the flops of the tree built
-   from that path: 'ab,bc->ac' with a=2,b=3,c=5 reports 10, the tree costs 30 *)
-Theorem C18_reported_cost_is_tree_cost_refuted :
+(* HISTORICAL (code before fix cd00d66, model variant pfix = false, `reported_flops`):
+   finding 13 in the model: the flops random-greedy reported for a path (processor with
+   track_flops, simplify_batch, then the contractions, flops NOT scaled by batch_factor) were
+   not the flops of the tree built from that path: 'ab,bc->ac' with a=2,b=3,c=5 reported 10,
+   the tree costs 30.  Kept as a regression statement about the OLD definition only. *)
+Theorem C18_reported_cost_is_tree_cost_refuted_prefix_code :
   ~ (forall (n : net) (path : list (nat * nat)) (t : tree),
        ssa_tree (length (inputs n)) path = Some t -> reported_flops n path = total_flops n [] t).
 Proof. exact reported_cost_refuted. Qed.
-Print Assumptions C18_reported_cost_is_tree_cost_refuted.
+Print Assumptions C18_reported_cost_is_tree_cost_refuted_prefix_code.
+
+(* THE CODE AS IT IS NOW (pfix = true: contract_nodes adds batch_factor * compute_flops).
+   simplify_batch, on a processor whose edge map is complete (proc_edges_ok, evaluated per run
+   as proc_edges_ok_b on every generated network), leaves every node with its legs minus the
+   batch indices B, multiplies batch_factor by prod sizes(B) and touches nothing else *)
+Theorem C18_simplify_batch_spec : forall p, proc_edges_ok p ->
+  let B := batch_indices p in
+  (forall i, pget (proc_simplify_batch p) i = drop_list B (pget p i)) /\
+  pbatch (proc_simplify_batch p) = (pbatch p * pprod (pszs p) B)%Z /\
+  pszs (proc_simplify_batch p) = pszs p /\ pflops_acc (proc_simplify_batch p) = pflops_acc p /\
+  ptrack (proc_simplify_batch p) = ptrack p /\ pfix (proc_simplify_batch p) = pfix p.
+Proof. exact simplify_batch_spec. Qed.
+Print Assumptions C18_simplify_batch_spec.
+
+(* ... and then every contraction adds exactly the flops of the operands' ORIGINAL legs
+   (= product of the sizes over the union of their original indices, i.e. the tree's flops by
+   C18_processor_flops_eq_tree_flops), whenever the held legs are the originals minus B, every
+   index of B sits on one of the two operands (a batch index sits on every tensor) and
+   batch_factor = prod sizes(B).
+   partial: that the hypotheses are re-established for the NEXT step (the new node's legs are
+   compute_contracted of the originals minus B) is not proved; run-level equality of the
+   reported total with the tree's total is judged on the real code every run. *)
+Theorem C18_fixed_step_reports_original_flops_partial : forall p i j B il0 jl0,
+  ptrack p = true -> pfix p = true -> i <> j ->
+  pbatch p = pprod (pszs p) B -> pget p i = drop_list B il0 -> pget p j = drop_list B jl0 ->
+  NoDup B -> NoDup (lkeys il0) -> NoDup (lkeys jl0) ->
+  (forall x, In x B -> In x (lkeys il0) \/ In x (lkeys jl0)) ->
+  pflops_acc (fst (proc_contract i j p)) = (pflops_acc p + pflops (pszs p) il0 jl0)%Z /\
+  pflops (pszs p) il0 jl0 = pprod (pszs p) (union_keys il0 jl0).
+Proof. exact fixed_step_reports_original_flops. Qed.
+Print Assumptions C18_fixed_step_reports_original_flops_partial.
+
+Theorem C18_edges_checker_sound : forall p, proc_edges_ok_b p = true -> proc_edges_ok p.
+Proof. exact proc_edges_ok_b_sound. Qed.
+Print Assumptions C18_edges_checker_sound.
+
+(* the fixed code on the old witness and on a network with a batch index on three tensors *)
+Example C18_fixed_code_witnesses :
+  reported_flops_gen true witness_net [(0, 1)] = total_flops witness_net [] (Node (Leaf 0) (Leaf 1)) /\
+  let n := mkNet [[0; 1; 4]; [1; 2; 4]; [2; 3; 4]] [0; 3; 4] [(0, 2%Z); (1, 2%Z); (2, 2%Z); (3, 2%Z); (4, 7%Z)] in
+  proc_edges_ok_b (proc_init_fixed n true) = true /\ batch_indices (proc_init_fixed n true) = [2] /\
+  reported_flops_gen true n [(0, 1); (3, 2)] = total_flops n [] (Node (Node (Leaf 0) (Leaf 1)) (Leaf 2)) /\
+  reported_flops n [(0, 1); (3, 2)] <> total_flops n [] (Node (Node (Leaf 0) (Leaf 1)) (Leaf 2)).
+Proof. vm_compute. repeat split; try reflexivity. discriminate. Qed.
 
 (* non-vacuity: a hyper index (1 on three tensors), an output index; the hypotheses of the
    processor theorems hold for the first step and the figures are the expected numbers *)
